@@ -473,7 +473,9 @@ impl FrameDecoder {
                         let chksum = u32::from_le_bytes(chksum);
                         state.check_sum = Some(chksum);
                     }
-                    return Ok((4, 0));
+                    // Only report the checksum as consumed if it was actually available
+                    let consumed = if state.check_sum.is_some() { 4 } else { 0 };
+                    return Ok((consumed, 0));
                 }
 
                 loop {
